@@ -28,7 +28,7 @@ pub struct MomCfg {
     pub order_ratio: f64,
     pub mu: f64,
     pub sigma: f64,
-    /// mid-price path in ticks (mid = k * tick)
+    /// mid-price path in half ticks (mid = k * tick / 2)
     pub path: Vec<u32>,
     pub agent_seed: u64,
     pub shuffle_seed: u64,
@@ -60,11 +60,13 @@ pub struct MomCensus {
     pub mirrored_orders_compared: u64,
     pub multi_asset_paths: u64,
     pub unsaturated_trials: u64,
+    pub unsaturated_limit_trials: u64,
+    pub half_tick_mids: u64,
 }
 impl MomCensus {
     fn merge(&mut self, o: &MomCensus) {
         macro_rules! add { ($($f:ident),*) => { $( self.$f += o.$f; )* } }
-        add!(paths, updates, saturated_updates, saturated_buy_updates, saturated_sell_updates, zero_momentum_updates, reversal_updates, orders, buys, sells, limit_orders, mirrored_pairs, mirrored_orders_compared, multi_asset_paths, unsaturated_trials);
+        add!(paths, updates, saturated_updates, saturated_buy_updates, saturated_sell_updates, zero_momentum_updates, reversal_updates, orders, buys, sells, limit_orders, mirrored_pairs, mirrored_orders_compared, multi_asset_paths, unsaturated_trials, unsaturated_limit_trials, half_tick_mids);
     }
 }
 
@@ -105,16 +107,22 @@ fn run_host<H: Host>(mut host: H, c: &MomCfg, cs: &mut MomCensus, tallies: &mut 
             }
         }
         env.do_step(&mut shuffle);
-        let level = k * tick;
-        env.place(a, true, 1_000_000, QUOTER, Some(level - tick)).map_err(|e| ("harness".to_string(), e))?;
-        env.place(a, false, 1_000_000, QUOTER, Some(level + tick)).map_err(|e| ("harness".to_string(), e))?;
+        // the path is given in HALF ticks: even values are mids on the grid (two-tick spread), odd
+        // values are half-tick mids (one-tick spread), so mid moves of half a tick occur too
+        let (bk, ak) = if k % 2 == 0 { (k / 2 - 1, k / 2 + 1) } else { ((k - 1) / 2, (k + 1) / 2) };
+        env.place(a, true, 1_000_000, QUOTER, Some(bk * tick)).map_err(|e| ("harness".to_string(), e))?;
+        env.place(a, false, 1_000_000, QUOTER, Some(ak * tick)).map_err(|e| ("harness".to_string(), e))?;
         env.do_step(&mut shuffle);
         let mid = match env.book(a).views().mid.map(f64::from_bits) {
             Some(x) => x,
             None => return bad("mid_price_unavailable", "mid_price panicked".into()),
         };
-        if mid != level as f64 {
+        let level = (*k as f64) * (tick as f64) / 2.0;
+        if mid != level {
             return bad("harness", format!("quotes did not produce the intended mid {} (got {})", level, mid));
+        }
+        if k % 2 == 1 {
+            cs.half_tick_mids += 1;
         }
         // the documented signal, recomputed from the mids the monitor observed
         let (m_new, p) = match last {
@@ -188,6 +196,13 @@ fn run_host<H: Host>(mut host: H, c: &MomCfg, cs: &mut MomCensus, tallies: &mut 
             tallies.push((mk, c.n_agents as u64, (abs_p * 1000.0).round() / 1000.0));
             cs.unsaturated_trials += c.n_agents as u64;
         }
+        // limit orders ~ Binomial(n, ratio*|p|) whenever that probability is strictly inside (0,1)
+        let pl = c.order_ratio * abs_p;
+        if m_new != 0.0 && pl > 0.02 && pl < 0.98 {
+            let lm: u64 = per_trader.values().map(|e| e.1 as u64).sum();
+            tallies.push((lm, c.n_agents as u64, (pl * 1000.0).round() / 1000.0));
+            cs.unsaturated_limit_trials += c.n_agents as u64;
+        }
         m = m_new;
         last = Some(mid);
         // process the agent's instructions (market orders hit the huge quotes; the touch cannot move)
@@ -203,8 +218,10 @@ pub fn random_cfg(rng: &mut Sm, i: usize, saturated: bool) -> MomCfg {
     let ticks: Vec<u32> = if market { vec![rng.range(1, 10) as u32, rng.range(1, 10) as u32] } else { vec![rng.range(1, 10) as u32] };
     let n_agents = rng.range(1, 20) as u16;
     let steps = rng.range(4, 30) as usize;
-    let base = rng.range(200, 5000) as i64;
+    let base = 2 * rng.range(200, 5000) as i64;
     let kind = rng.below(5);
+    // 60% of the paths stay on whole ticks (even half-tick values), 40% also visit half-tick mids
+    let whole = rng.chance(0.6);
     let mut path = Vec::with_capacity(steps);
     let mut cur = base;
     for s in 0..steps {
@@ -215,7 +232,8 @@ pub fn random_cfg(rng: &mut Sm, i: usize, saturated: bool) -> MomCfg {
             3 => 0,                                       // flat
             _ => if (s / 3) % 2 == 0 { rng.range(2, 9) as i64 } else { -(rng.range(1, 3) as i64) }, // trend with small reversals
         };
-        cur = (cur + d).clamp(20, 20_000);
+        let d = if whole { 2 * d } else { d };
+        cur = (cur + d).clamp(40, 40_000);
         path.push(cur as u32);
     }
     let demand = if saturated { n_agents as f64 * *rng.pick(&[5.0, 20.0, 200.0]) } else { n_agents as f64 * *rng.pick(&[0.2, 0.5, 0.9]) };
@@ -349,7 +367,7 @@ pub fn c17(ctx: &Ctx) -> i32 {
         if dev > thr {
             violations.push(Violation {
                 signature: "C17:momentum:frequency_outside_band".into(),
-                summary: format!("unsaturated demand: {} market orders in {} trader-updates, expected {:.0} +- {:.0} (mean p {:.3})", s, t, exp, thr, pbar),
+                summary: format!("unsaturated demand: {} orders in {} trader-updates, expected {:.0} +- {:.0} (mean p {:.3})", s, t, exp, thr, pbar),
                 replay: json!({"kind": "c17_frequency"}),
             });
         }
@@ -367,11 +385,13 @@ pub fn c17(ctx: &Ctx) -> i32 {
         ("mirrored_pairs", cs.mirrored_pairs, 1000),
         ("multi_asset_paths", cs.multi_asset_paths, 500),
         ("unsaturated_trials", cs.unsaturated_trials, 20_000),
+        ("unsaturated_limit_trials", cs.unsaturated_limit_trials, 10_000),
+        ("half_tick_mids", cs.half_tick_mids, 2000),
     ]);
     let cov = json!({
         "evaluations": cs.updates,
         "distinct_nontrivial": d.len(),
-        "rule": "cases = momentum-agent update calls along harness-imposed mid-price paths (the harness cancels everything and re-quotes one tick either side of the path level with huge volume in harness-only steps, so the agent's orders never move the touch); rising / falling / mixed / flat / trend-with-reversals paths, decay/scale/demand/order-ratio grids, 1..20 traders, single- and multi-asset; judged: side = sign(M) with M recomputed from the observed mids, exactly one market order (and one limit order if ratio*|p| >= 1) per trader when |demand*tanh(scale*M)|/n >= 1, nothing when M = 0, Binomial band when unsaturated, and mirrored-run comparison (path k vs 2L-k with identical seeds: same steps, traders, kinds and volumes, opposite sides; prices are not compared); distinct = distinct (path, agent seed) pairs; non-trivial = the path both rises and falls",
+        "rule": "cases = momentum-agent update calls along harness-imposed mid-price paths (the harness cancels everything and re-quotes around the path level with huge volume — two-tick spread for mids on the grid, one-tick spread for half-tick mids — in harness-only steps, so the agent's orders never move the touch); rising / falling / mixed / flat / trend-with-reversals paths, decay/scale/demand/order-ratio grids, 1..20 traders, single- and multi-asset; judged: side = sign(M) with M recomputed from the observed mids, exactly one market order (and one limit order if ratio*|p| >= 1) per trader when |demand*tanh(scale*M)|/n >= 1, nothing when M = 0, Binomial band when unsaturated, and mirrored-run comparison (path k vs 2L-k with identical seeds: same steps, traders, kinds and volumes, opposite sides; prices are not compared); distinct = distinct (path, agent seed) pairs; non-trivial = the path both rises and falls",
         "samples": samples,
         "census": cs,
         "unsaturated_bands": bands,
